@@ -89,3 +89,48 @@ def strip_docstring(body: List[ast.stmt]) -> List[ast.stmt]:
     if body and isinstance(body[0], ast.Expr) and isinstance(body[0].value, ast.Constant) and isinstance(body[0].value.value, str):
         return body[1:]
     return body
+
+
+def single_defs(fn: ast.AST) -> Dict[str, ast.AST]:
+    """names of a function that are bound exactly once, by a plain `name = value` assignment (temporaries), with their value;
+    parameters, loop / with / comprehension targets, augmented and unpacked names are not in the map"""
+    count: Dict[str, int] = {}
+    val: Dict[str, ast.AST] = {}
+    a = getattr(fn, "args", None)
+    if a is not None:
+        for x in a.posonlyargs + a.args + a.kwonlyargs + ([a.vararg] if a.vararg else []) + ([a.kwarg] if a.kwarg else []):
+            count[x.arg] = 2
+    for n in ast.walk(fn):
+        if isinstance(n, ast.Assign) and len(n.targets) == 1 and isinstance(n.targets[0], ast.Name):
+            count[n.targets[0].id] = count.get(n.targets[0].id, 0) + 1
+            val[n.targets[0].id] = n.value
+        elif isinstance(n, ast.Name) and isinstance(n.ctx, (ast.Store, ast.Del)):
+            pass
+    for n in ast.walk(fn):
+        if isinstance(n, ast.Name) and isinstance(n.ctx, (ast.Store, ast.Del)):
+            count.setdefault(n.id, 0)
+    stores: Dict[str, int] = {}
+    for n in ast.walk(fn):
+        if isinstance(n, ast.Name) and isinstance(n.ctx, (ast.Store, ast.Del)):
+            stores[n.id] = stores.get(n.id, 0) + 1
+    params = {k for k, c in count.items() if c == 2 and k not in val} | ({x.arg for x in a.posonlyargs + a.args + a.kwonlyargs} if a is not None else set())
+
+    def stable(v):
+        # every name the value reads is bound at most once in the function (a re-bound name may denote another value at the use)
+        return all((stores.get(x.id, 0) + (1 if x.id in params else 0)) <= 1 for x in ast.walk(v) if isinstance(x, ast.Name))
+    return {k: v for k, v in val.items() if count.get(k) == 1 and stores.get(k) == 1 and stable(v)}
+
+
+def deref(expr: ast.AST, defs: Dict[str, ast.AST], depth: int = 6) -> ast.AST:
+    """`expr` with every temporary of `defs` replaced by its value (a copy; bounded nesting)"""
+    import copy
+
+    class Sub(ast.NodeTransformer):
+        def __init__(s, d):
+            s.d = d
+
+        def visit_Name(s, n):
+            if isinstance(n.ctx, ast.Load) and n.id in defs and s.d > 0:
+                return Sub(s.d - 1).visit(copy.deepcopy(defs[n.id]))
+            return n
+    return Sub(depth).visit(copy.deepcopy(expr))
